@@ -309,9 +309,10 @@ def c10(tier, replay):
     # (a) the record after play_out_position: exact multiset of identities
     totals, _ = R.rules_trace(run, "C10", ["--playouts", 200 if q else 3000, "--plies", 40, "--pos", 1, "--repeat-bias", 0.6, "--gen", 0], "record")
     R.need(totals, ["pos"])
-    # (a') the same position occurring 4, 5, 10, 30 and 100 times (counts beyond three must still be exact)
-    longs = ["position startpos moves " + " ".join(["g1f3 g8f6 f3g1 f6g8"] * c) for c in ((3, 4, 9) if q else (3, 4, 9, 24, 60))]
-    longs += ["position fen 8/8/8/4k3/8/8/8/4K2R w K - 0 1 moves " + " ".join(["h1h2 e5e6 h2h1 e6e5"] * c) for c in ((4, 12) if q else (4, 12, 40))]
+    # (a') the same position occurring 4, 5, 10, 30 and 100 times (counts beyond three must still be exact), in games of more
+    # than 100 plies too (a record that only keeps the last hundred plies "because of the fifty-move rule" loses the early ones)
+    longs = ["position startpos moves " + " ".join(["g1f3 g8f6 f3g1 f6g8"] * c) for c in ((3, 4, 9, 30) if q else (3, 4, 9, 24, 30, 60))]
+    longs += ["position fen 8/8/8/4k3/8/8/8/4K2R w K - 0 1 moves " + " ".join(["h1h2 e5e6 h2h1 e6e5"] * c) for c in ((4, 12, 27) if q else (4, 12, 27, 40))]
     dl = R.trace_dir("C10-long")
     for i, cmd in enumerate(longs):
         sub = os.path.join(dl, "c%d" % i)
